@@ -21,7 +21,7 @@ pub enum Op {
     Solve,
 }
 
-const BOUNDS: [f64; 5] = [1e20, 1e3, 1e6, 1e10, 1e15];
+const BOUNDS: [f64; 6] = [1e20, 1e3, 1e6, 1e10, 1e15, f64::INFINITY];
 
 fn pick_bound(tag: &str) -> f64 {
     BOUNDS[choose(tag, BOUNDS.len() as u32) as usize]
